@@ -6,6 +6,7 @@ import FunModel.Drv.C18
 import FunModel.Drv.C02
 import FunModel.Drv.C14
 import FunModel.Drv.C05
+import FunModel.Drv.C01
 
 /-! Line-protocol driver: `driver <property>` reads one S-expression per line on stdin and prints
     the model's observation for it on one line. Core Lean only (no Mathlib) so it links. -/
@@ -22,6 +23,8 @@ def handlerFor : String → Option (Sexp → String)
   | "C07" => some DrvC05.handle
   | "C20" => some DrvC05.handle
   | "C17" => some DrvC16.handle
+  | "C01" => some DrvC01.handle
+  | "C04" => some DrvC01.handle
   | _ => none
 
 partial def loop (h : IO.FS.Stream) (out : IO.FS.Stream) (f : Sexp → String) : IO Unit := do
